@@ -1028,7 +1028,7 @@ def deep_inputs(rng, quick):
 # ------------------------------------------------------------------------------------------------
 # call-shape matrix: targets with 0..3 parameters (with / without defaults) x argument shapes (too few, exact, too
 # many positional; keywords known / unknown / repeated / clashing with a positional; * and **; malformed texts) x
-# call sites (choice, jump, nested in @if/@elif/@else/@for, in a join block, ...).  Everything else in the story is
+# call sites (choice, jump, nested in @if/@elif/@else/@for, beside a join choice, ...).  Everything else in the story is
 # valid, so that the call site is what validate_passage_arguments sees.
 # ------------------------------------------------------------------------------------------------
 
@@ -1093,7 +1093,8 @@ CALL_SITES = {
     "choice-in-for-in-if": lambda c: ["@if n:", "@for i in [1]:", "+ [Go] -> " + c, "@endfor", "@endif"],
     "jump-in-if-in-for": lambda c: ["@for i in [1]:", "@if i:", "-> " + c, "@endif", "@endfor"],
     "choice-in-legacy-if": lambda c: ["<<if n>>", "+ [Go] -> " + c, "<<endif>>"],
-    "jump-in-join-block": lambda c: ["+ [Wait] -> @join", "    -> " + c, "@join", "after"],
+    # (inside a join block a `->` line is text by design: no call site, but a line the block parser must survive)
+    "jump-line-in-join-block-is-text": lambda c: ["+ [Wait] -> @join", "    -> " + c, "@join", "after"],
     "choice-beside-join-choice": lambda c: ["+ [Wait] -> @join", "    inside", "+ [Go] -> " + c, "@join", "after"],
     "choice-after-join": lambda c: ["+ [Wait] -> @join", "@join", "after", "+ [Go] -> " + c],
 }
@@ -1103,7 +1104,7 @@ JOIN_CALLS = [("join-choice-with-arguments", lambda a: ["+ [Wait] -> @join" + ("
 
 def call_matrix(rng, quick):
     """[(family, lines, compare_with_model)].  thorough: the full matrix, all of it compared with the model.  quick: every
-    (parameters, shape) pair at 6 drawn call sites out of 18; the model is compared at one of them plus a drawn share
+    (parameters, shape) pair at 4 drawn call sites out of 18; the model is compared at one of them plus a drawn share
     of the rest."""
     out = []
     for ci, params in enumerate(PARAM_CONFIGS):
@@ -1111,7 +1112,7 @@ def call_matrix(rng, quick):
         cfg = f"params-{len(params)}-required-{nreq}"
         shapes = call_shapes(params)
         for shape, args in shapes:
-            sites = list(CALL_SITES) if not quick else rng.sample(list(CALL_SITES), 6)
+            sites = list(CALL_SITES) if not quick else rng.sample(list(CALL_SITES), 4)
             drawn = rng.choice(sites)
             for site in sites:
                 call = "T" + ("" if args is None else f"({args})")
@@ -1426,7 +1427,8 @@ def run(tier: str, seed: int) -> int:
         "target with 0..3 parameters (10 signatures, with and without defaults) x argument shapes (no parentheses, empty, "
         "1..n+2 positional, keywords: all / reversed / partial / unknown / repeated / clashing with a positional / before a "
         "positional, *args, **kwargs, 20 malformed texts) x 18 call sites (choice, jump, in @if/@elif/@else/@for/<<if>>, "
-        "nested two deep, in and beside a join block) in an otherwise valid story; plus calls to @join"))
+        "nested two deep, beside a join choice, after @join; a `->` line inside a join block, which is text) in an otherwise "
+        "valid story; plus calls to @join"))
     dist["whole_parse_cases_compared"] = len(pterms)
     dist["whole_parse_cases_skipped"] = skipped
     chk.notes["input_distribution"] = dist
